@@ -10,6 +10,9 @@ import (
 func init() { scenarios["C09"] = scenarioC09 }
 
 func scenarioC09(rc *RunCtx) *Violation {
+	if rc.G.n(10) == 0 {
+		return scenarioC09Watcher(rc)
+	}
 	g := rc.G
 	p := GenProject(g, "/p")
 	o := GenOptions(g, p)
